@@ -28,7 +28,7 @@ def plan(tier):
                 'by a valid probe, under the same oracles; a cell is (mutation class, decodable?, outcome)',
         'min_monitor': {'frames_sent': 3000, 'undecodable_frames_checked': 1000, 'probes_after_garbage': 150,
                         'chunkings_compared': 150, 'maxsize_checked': 100,
-                        'fuzz_frames_undecodable': 1000},
+                        'fuzz_frames_undecodable': 1000, 'header_item_checks': 100},
         'assumptions': ['a framed request is the unit delimited by the outer TTLV header, as the session frames it',
                         'undecodable = RequestMessage.read raises under the session\'s default version (1.2)',
                         'a frame whose header announces more bytes than the stream holds ends the connection '
@@ -290,6 +290,35 @@ def value_overrun(frame):
     return 'value-overrun'
 
 
+def unread_header_item(frame):
+    """For a frame the decoder accepts: the tag of an item of the request header that the decoder does not read (None if it
+    reads them all).  The header is what decides how the request is treated (version, size limit, time stamp, options,
+    credentials, batch count): a decoder that passes over one of its items has not decoded the request it then executes.
+    Decided without a schema, as for overrunning values: every read of an item checks its type byte, so an item is read iff
+    an invalid type byte in it turns the frame into one the decoder refuses."""
+    try:
+        tree = T.decode(frame, strict=False)
+    except T.TTLVError:
+        return None
+    hdr = T.kid(tree, T.T_REQUEST_HEADER)
+    if hdr is None or hdr[1] != T.STRUCTURE or len(frame) > 65536:
+        return None
+    # offsets of the header's children in the frame (the header is the first child of the message)
+    off = 8
+    if frame[off:off + 3] != b'\x42\x00\x77':
+        return None
+    end = off + 8 + struct.unpack('!I', frame[off + 4:off + 8])[0]
+    o = off + 8
+    while o + 8 <= min(end, len(frame)):
+        ln = struct.unpack('!I', frame[o + 4:o + 8])[0]
+        tampered = bytearray(frame)
+        tampered[o + 3] = 0x0C
+        if decodable(bytes(tampered)):
+            return '%06X' % int.from_bytes(frame[o:o + 3], 'big')
+        o += 8 + ln + ((8 - ln % 8) % 8 if frame[o + 3] != 1 else 0)
+    return None
+
+
 def decodable(frame):
     try:
         with rig.cpu_budget(20):        # a decoder that does not come back is not a decoder that accepted the frame
@@ -413,6 +442,14 @@ def run_case(ctx, case):
                                           'the request decoder accepts a %s frame that is structurally incomplete (%s)'
                                           % (kinds[i], inc), {'frame': frames[i].hex()[:600]})
                             dec[i] = False     # it must be treated as undecodable below
+                for i, dc in enumerate(dec):
+                    if dc and kinds[i] != 'probe' and ctx.counters.get('header_item_checks', 0) < 4000:
+                        ctx.count('header_item_checks')
+                        tag_ = unread_header_item(frames[i])
+                        if tag_ is not None:
+                            ctx.violation('decoder-ignores-header-item|%s' % kinds[i], 'the request decoder accepts a %s frame without reading '
+                                          'item %s of its request header' % (kinds[i], tag_), {'frame': frames[i].hex()[:600]})
+                            dec[i] = False
                 mutating = any(dec[:-1])       # a decodable "bad" frame may execute and change the store
                 results = {}
                 t0 = clock.now
